@@ -308,7 +308,7 @@ Section StepNf.
       apply object_at_nf. eapply lt8_consume; [exact L|eapply psuffix_trans_l; [exact E|apply psuffix_suffix, psuffix_cons]|lia]. }
     destruct (grefTag tag); [apply read_ref_nf|discriminate].
   Qed.
-  Lemma rf_step_nf t st bs : lt8 3 (S f) bs -> rf_step te tm R t st bs <> Fuel.
+  Lemma rf_core_nf t st bs : lt8 3 (S f) bs -> rf_core te tm R t st bs <> Fuel.
   Proof.
     intros L. assert (L0 : lt8 0 (S f) bs) by (unfold lt8 in *; lia).
     assert (RS : (do (x, st1) <- read_struct tm R st bs ;; let '(s, r) := x in
@@ -323,10 +323,17 @@ Section StepNf.
       destruct (R_rl R None st bs) as [[[m r] st1]|er| |]; try discriminate; try congruence.
       - apply bind_nf; [apply set_slice_nf|discriminate].
       - destruct er; try discriminate. destruct bs as [|tg r]; [discriminate|]. destruct (tg =? g_endFlag); discriminate. }
-    unfold rf_step. destruct t; try discriminate; try exact RS; try exact RL;
+    unfold rf_core. destruct t; try discriminate; try exact RS; try exact RL;
       try (apply bind_nf; [auto with nf|intros [x r] _; discriminate]).
     - destruct t; try discriminate; exact RS.
     - apply Nrm. eapply lt8_down; [exact L|apply suffix_refl|lia].
+  Qed.
+  Lemma rf_step_nf t st bs : lt8 3 (S f) bs -> rf_step te tm R t st bs <> Fuel.
+  Proof.
+    intros L. unfold rf_step. destruct bs as [|tag r]; [apply rf_core_nf; exact L|].
+    destruct (scalar_type t && (tag =? g_objectDefTag)); [|apply rf_core_nf; exact L].
+    apply bind_nf; [apply read_class_def_nf|]. intros [[u r1] st1] E. apply read_class_def_psuffix in E. cbn [snd].
+    apply Nrf. eapply lt8_consume; [exact L|eapply psuffix_trans_l; [exact E|apply psuffix_suffix, psuffix_cons]|lia].
   Qed.
   Lemma rm_step_nf t st bs : lt8 0 (S f) bs -> rm_step te R t st bs <> Fuel.
   Proof.
